@@ -8,17 +8,22 @@ from tie.framework import g_bool, g_list, g_opt, g_pair, g_str, g_Z
 
 PROP = "C07"
 IMPORTS = "From JV Require Import Lib.Base Model.C07Decl Model.C07Parse Spec.C07Spec Corr.C07Judge."
-RULE = ("seeded field lists (1-5 fields; names with shared prefixes and a leading underscore; types int, str, bool, "
-        "Optional[int|str|List[int]], List[int|str]; defaults conforming / None / absent; ~30% lists that the signature "
-        "rules rewrite) under group keys g, grp, my_g, my-g, c, h, p; the dataclass / class styles are built from the "
-        "list, the dotted / inner-parser styles from its normal form under the documented signature rules (the judge "
-        "recomputes the normal form in Coq). Per field list one TABLE case (the four real parsers' _actions and "
-        "required_args against the model compilers) and 10 RUN cases: one input (parse_args with dotted options, "
-        "abbreviations, '+' appends, whole-group --g=JSON, --cfg=config strings, unknown options; parse_object; "
-        "parse_string; each with 0-2 environment variables incl. APP_<G>, APP_<G>__<F>, APP_CFG; valid and invalid "
-        "values, unknown keys, scalar / string / null for the group key, dotted keys in configs) through the four real "
-        "parsers. Field lists are never empty. non-trivial = table case with >=2 fields or run case with a non-empty "
-        "input; distinct = distinct (declaration, input, observation)")
+RULE = ("seeded member lists under group keys g, grp, my_g, my-g, c, h, p: 1-5 leaves (names with shared prefixes and a "
+        "leading underscore; types int, str, bool, Optional[int|str|List[int]], List[int|str]; defaults conforming / None "
+        "/ absent; ~30% lists that the signature rules rewrite), in ~22% one dataclass-typed member (a nested sub-group of "
+        "1-3 leaves, with or without a default instance, at a random position), in ~20% (50% of the nested ones) "
+        "declaration-time default overrides on a random subset of the leaves (default=<dataclass instance> for the "
+        "dataclass style, default=<dict> — complete or only the overridden members — for the class style, plain default= "
+        "for the dotted / inner-parser styles). The dataclass / class styles are built from the members, the dotted / "
+        "inner-parser styles from their normal form under the documented signature rules (the judge recomputes it in "
+        "Coq). Per declaration one TABLE case (the four real parsers' _actions and required_args, or the exception of the "
+        "declaration, against the model compilers incl. the set_defaults pass) and 10 RUN cases: one input (parse_args "
+        "with dotted options of leaves and sub-group leaves, abbreviations, '+' appends, whole-group / whole-sub-group "
+        "--g=JSON, --cfg=config strings, unknown options; parse_object; parse_string; nested mappings and dotted keys; "
+        "each with 0-2 environment variables incl. APP_<G>, APP_<G>__<SUB>, APP_<G>__<F>, APP_CFG; valid and invalid "
+        "values, unknown keys, scalar / string / null / empty mapping for the group or sub-group key) through the four "
+        "real parsers. non-trivial = table case with >=2 leaves or run case with a non-empty input; distinct = distinct "
+        "(declaration, input, observation)")
 TRUSTED = [
     "Coq 8.16.1 kernel + vm_compute",
     "tie/impl/c07_styles.py (builds the four parsers, reads _actions / required_args, canonicalises results) and the "
@@ -32,8 +37,12 @@ ASSUMPTIONS = [
     "config strings on --cfg / APP_CFG do not name existing files; declared defaults conform to their types or are None",
     "type conversion (other properties' business) is modelled only for int, str, bool, Optional, List and is "
     "idempotent on its own results; floats and other YAML kinds are never generated",
-    "the result namespace has two levels (group key -> field): field names and config keys carry no further dots; "
-    "group keys have no dot and no leading '-' (finding class 6 otherwise: never generated, not listed)",
+    "the model's namespace has two levels (group key -> leaf path): the leaves of a nested sub-group are kept under "
+    "their dotted paths (the runner flattens what it observes the same way); one nesting level below the group; "
+    "group keys have no dot and no leading '-', member names are distinct identifiers (finding class 6 otherwise: "
+    "never generated, not listed); no config gives a sub-group key null",
+    "a declaration overrides only defaults of parameters that have one (with an override present every parameter has a "
+    "signature default: a dataclass instance needs a value for each)",
     "the add_argument styles are declared from the normal form of the field list under the documented signature rules "
     "(Optional without default -> default None, default None -> Optional[T], non-required '_' names not offered)",
     "no config gives an UNDECLARED key an empty mapping (since fix a58b0fc such a key is rejected unless it names an "
@@ -434,7 +443,7 @@ def generate(rng, tier):
         cases.append(mk_case("table", gk, ms, None, full))
         for inp in inputs:
             cases.append(mk_case("run", gk, ms, inp, full))
-    n_lists = 260 if tier == "quick" else 3000
+    n_lists = 230 if tier == "quick" else 2600
     for _ in range(n_lists):
         gk = rng.choice(GKEYS)
         ms = gen_members(rng, gk)
@@ -756,7 +765,9 @@ def search(rng, tier, broken):
 
 META = {
     "level_text": (
-        "Theorem C07_four_styles_agree (coq/Properties/C07.v): for EVERY group key, EVERY field list (any length; "
+        "Theorems C07_four_styles_agree_m / C07_four_styles_agree (coq/Properties/C07.v): for EVERY group key, EVERY flat "
+        "member list (any length; with or without declaration-time default overrides, complete or partial default= "
+        "mapping; "
         "types int/str/bool/Optional/List, default or none), ANY pair of external loaders and EVERY input mix "
         "(environment variables + parse_args items incl. abbreviations, '+' appends and --cfg strings | parse_object "
         "| parse_string) that does not address the group key itself, the Gallina models of the four declaration "
@@ -770,9 +781,15 @@ META = {
         "argv, config merge, validation and dump with an invariant), and C07_signature_rules_normal_form / "
         "C07_norm_idempotent (for lists without private names the signature styles see a field list only through the "
         "documented rules' normal form). "
-        "Outside the guard the property fails on the faithful model: seven ..._refuted theorems (kernel-evaluated "
-        "witnesses) for the five listed findings; C07_four_styles_agree_fixed is the statement for the tree repaired "
-        "by fixes/C07-inner-hyphen-required.patch. Models are tied to the real code per case inside Coq: the four "
+        "C07_set_defaults_in_order / C07_grouped_tables_equal_m: the sequential find-by-dest-and-set of "
+        "parser.set_defaults over the default= mapping gives every parameter exactly its overriding default (no override "
+        "lost, none on another parameter), so the signature styles' table equals the inner-parser table built with the "
+        "defaults inline. Declarations with a dataclass-typed member (nested sub-group) are modelled by all four "
+        "compilers and by the parser model (leaves under dotted paths) but only TIED by the correspondence (class 7; "
+        "C07_nested_tables_example is one kernel-evaluated instance). "
+        "Outside the guard the property fails on the faithful model: ..._refuted theorems (kernel-evaluated "
+        "witnesses) for the listed findings (hyphen-key-default-override is new); C07_four_styles_agree_fixed / "
+        "the fixkey=true compilers are the statements for the repaired trees. Models are tied to the real code per case inside Coq: the four "
         "real parsers' _actions/required_args against the model compilers (table cases) and the four real parsers' "
         "answers (as_dict / rejection / dump) against the model run (run cases)."),
     "level_note": (
